@@ -2,6 +2,7 @@ import Urandom.Lemmas.Mix
 import Urandom.Spec.Published
 import Urandom.Props.C02
 import Urandom.Props.C08
+import Urandom.Lemmas.WyStream
 /-
 C09 - Every 64-bit seed gives a valid, distinct generator.
 
@@ -112,10 +113,66 @@ theorem xoshiro_distinct_seeds_distinct_streams : DistinctStreamsFull := by
   injection h2 with h3
   exact hn h3
 
+/-! ### different seeds give different output STREAMS (Wyrand) -/
+
+/-- the outputs of `n` successive `next_u64` calls of Wyrand are the output map along the Weyl walk -/
+theorem wyrand_run_u64 (n : Nat) (s : BitVec 64) :
+    (Wyrand.gen.run s (List.replicate n .u64)).1 =
+      (List.range n).map (fun i => Out.w64 (WyStream.f (s + BitVec.ofNat 64 (i + 1) * Wyrand.P0))) := by
+  induction n generalizing s with
+  | zero => rfl
+  | succ n ih =>
+    rw [List.replicate_succ, List.range_succ_eq_map, List.map_cons, List.map_map]
+    show Out.w64 (WyStream.f (s + Wyrand.P0)) :: (Wyrand.gen.run (s + Wyrand.P0) (List.replicate n .u64)).1 = _
+    rw [ih]
+    have h0 : s + BitVec.ofNat 64 (0 + 1) * Wyrand.P0 = s + Wyrand.P0 := by
+      have : BitVec.ofNat 64 (0 + 1) = 1#64 := rfl
+      rw [this, BitVec.one_mul]
+    rw [h0]
+    refine congrArg (List.cons _) ?_
+    apply List.map_congr_left
+    intro i _
+    have hstep : s + Wyrand.P0 + BitVec.ofNat 64 (i + 1) * Wyrand.P0 = s + BitVec.ofNat 64 (i + 1 + 1) * Wyrand.P0 := by
+      have : BitVec.ofNat 64 (i + 1 + 1) = 1#64 + BitVec.ofNat 64 (i + 1) := by
+        apply BitVec.eq_of_toNat_eq; simp [BitVec.toNat_add]; omega
+      rw [this, BitVec.add_mul, BitVec.one_mul, BitVec.add_assoc]
+    show Out.w64 (WyStream.f (s + Wyrand.P0 + BitVec.ofNat 64 (i + 1) * Wyrand.P0)) = _
+    rw [hstep]
+    rfl
+
+/-- **Two different seeds never produce the same stream of 64-bit outputs from Wyrand**: the state
+walks all of Z/2^64 in steps of the odd constant, so streams that agree forever would make the
+output map periodic with the non-zero period `b - a`, hence with period `2^63` - and it is not
+(`Lemmas/WyStream.lean`). -/
+theorem wyrand_distinct_seeds_distinct_streams (a b : BitVec 64) (hab : a ≠ b) :
+    ∃ n, (Wyrand.gen.run (Wyrand.fromSeed a) (List.replicate n .u64)).1 ≠
+      (Wyrand.gen.run (Wyrand.fromSeed b) (List.replicate n .u64)).1 := by
+  obtain ⟨n, hn⟩ := WyStream.outputs_differ a b hab
+  refine ⟨n + 1, ?_⟩
+  rw [wyrand_run_u64, wyrand_run_u64]
+  intro h
+  have h1 := congrArg (fun l => l[n]?) h
+  simp only [List.getElem?_map, List.getElem?_range (Nat.lt_succ_self n), Option.map_some] at h1
+  injection h1 with h2
+  injection h2 with h3
+  exact hn h3
+
+/-- SplitMix64 at stream level (the first output already differs) -/
+theorem splitmix_distinct_seeds_distinct_streams (a b : BitVec 64) (hab : a ≠ b) :
+    ∃ n, (SplitMix.gen.run (SplitMix.fromSeed a) (List.replicate n .u64)).1 ≠
+      (SplitMix.gen.run (SplitMix.fromSeed b) (List.replicate n .u64)).1 := by
+  refine ⟨1, ?_⟩
+  intro h
+  have h1 : Out.w64 (SplitMix.next (SplitMix.fromSeed a)).1 = Out.w64 (SplitMix.next (SplitMix.fromSeed b)).1 := by
+    have := congrArg (fun l => l[0]?) h
+    simpa [WordGen.run, WordGen.step, SplitMix.gen] using this
+  injection h1 with h2
+  exact hab (splitmix_first_output_injective h2)
+
 /-
-What remains open of the stream clause: Wyrand (its output map is not known to have fibres of a
-size that forces the argument) and ChaCha (a statement about the cipher); for both the initial
-states and, for the Weyl generators, all later states of different seeds differ (above).
+What remains open of the stream clause: ChaCha (a statement about the cipher: that two keys never
+give the same keystream is not known to be provable; the initial states - keys - of different seeds
+differ, above, and the keystream is the published one, C02).
 -/
 
 example : Xoshiro.fromSeed 0#64 ≠ Xoshiro.zeroS := xoshiro_fromSeed_ne_zero _
